@@ -35,7 +35,7 @@ ANCHORS = [
 MIN_NONTRIVIAL = {"quick": 8, "thorough": 150}
 WORKERS = {"quick": 8, "thorough": 16}
 TIMEOUT = {"quick": 1500, "thorough": 10800}
-MAX_INCONCLUSIVE_FRAC = 0.3
+MAX_INCONCLUSIVE_FRAC = 0.4
 TAU_L, TAU_E = 1e-4, 1e-3
 
 _trace = None
